@@ -109,6 +109,25 @@ fn main() {
         "C19" => protochecks::c19(tier),
         "C07" => sim_checks::c07(tier),
         "C13" => sim_checks::c13(tier),
+        "C05dbg" => {
+            use std::sync::Arc;
+            use consensus::verif::ConsensusMessage;
+            let w = Arc::new(world::World::new(&[1, 1, 1, 1]));
+            let uni = proto::universe::Universe::new(w.clone(), true);
+            let (mut ln, _) = proto::node::LiveNode::boot(&w, &uni, 0);
+            let pd = proto::node::payload_digest(0);
+            let b1 = w.block(1, 1, consensus::QC::genesis(), None, vec![]);
+            let b2 = w.block(2, 2, w.qc(&b1, &[1, 2, 3]), None, vec![]);
+            let f3 = w.block(3, 3, w.qc(&b2, &[1]), None, vec![pd]);
+            for m in [ConsensusMessage::Propose(b1), ConsensusMessage::Propose(b2), ConsensusMessage::Propose(f3)] {
+                let id = uni.intern(m);
+                let r = ln.apply(&uni, proto::universe::Ev::Deliver(id));
+                println!("{} -> findings {:?} commits {}", uni.msg(id).desc, r.findings.iter().map(|f| &f.signature).collect::<Vec<_>>(), r.key.hist.commits.len());
+            }
+            let r = ln.apply(&uni, proto::universe::Ev::Batch(0));
+            println!("batch -> findings {:?} commits {} stored {}", r.findings.iter().map(|f| (&f.signature, &f.what)).collect::<Vec<_>>(), r.key.hist.commits.len(), r.key.stored.len());
+            0
+        }
         "C01dbg" => { sim_checks::debug_byz(); 0 }
         "C06dbg" => { sim_checks::debug_c06(); 0 }
         "C06" => sim_checks::c06(tier),
